@@ -18,6 +18,14 @@ for pid,title,ob,partial,libs,claim in rows:
 out+=['','What each check claims (MANIFEST `level_claimed.text`, written by the property\'s builder):','']
 for pid,title,ob,partial,libs,claim in rows:
     out.append('* **%s — %s.** %s'%(pid,title,claim))
+out+=['','Theorem inventory (every `theorem` in `lean/SdnsVerif/Props/Cxx.lean` is a proof obligation the runner requires to be discharged and audited with `#print axioms` on every run):','']
+for pid,title,ob,partial,libs,claim in rows:
+    try:
+        src=open('%s/lean/SdnsVerif/Props/%s.lean'%(V,pid)).read()
+    except OSError:
+        continue
+    names=re.findall(r'^\s*(?:@\[[^\]]*\]\s*)?theorem\s+([A-Za-z0-9_\.\']+)',src,flags=re.M)
+    out.append('* **%s** (%d): %s'%(pid,len(names),', '.join('`%s`'%n for n in names)))
 out+=['','<!-- END AS-BUILT TABLE -->']
 s=open(V+'/DESIGN.md').read()
 block='\n'.join(out)
